@@ -199,6 +199,11 @@ def v2_property(pid, tier, cfgs, cont, nontrivial, rule, level="model_checking",
             files.append(os.path.join(fsub, "free_events.ndjson"))
             if free_stats["races"]:
                 v.notes.append("race detector reported %d race(s) in free-running runs (verdict of C20)" % free_stats["races"])
+        if pid == "C05":   # real clock, real goroutines: small buffers with hundreds of writers parked on them before New
+            fs = v.attempt("free-running saturated v2", free_v2_sat, sc, binary, tier)
+            if fs:
+                files.append(fs[0])
+                v.cov["free_running_saturated"] = fs[1]
         if v2rand:
             for c2 in v2rand_configs(tier):
                 if (c2.get("faults", 0) > 0) != (pid == "C15"):
@@ -499,6 +504,16 @@ def free_v2(sc, binary, tier):
     if not m:
         raise Inconclusive("free-running driver died\n" + out[-3000:])
     return sub, dict(runs=int(m.group(1)), events=int(m.group(2)), calls=int(m.group(3)), races=races_in(out), out=out)
+
+
+def free_v2_sat(sc, binary, tier):
+    sub = os.path.join(sc, "freesat")
+    os.makedirs(sub, exist_ok=True)
+    rc, out, wall = run_test(binary, "TestFreeV2Sat$", env=dict(OUT_DIR=sub, FREESAT_RUNS=12 if tier == "quick" else 120), timeout=900)
+    m = re.search(r"FREESAT runs=(\d+) events=(\d+)", out)
+    if not m:
+        raise Inconclusive("free-running saturated driver died\n" + out[-3000:])
+    return os.path.join(sub, "freesat_events.ndjson"), dict(runs=int(m.group(1)), events=int(m.group(2)), wall_s=round(wall, 1))
 
 
 def extra_C15(v, sc, binary):
